@@ -58,7 +58,38 @@ inductive E where
   | tup (as : List E)
   | normal (k : String)              -- NormalVector / MinusNormalVector / PlusNormalVector
   | other (tag : String) (as : List E)
-  deriving Repr, Inhabited, BEq
+  deriving Repr, Inhabited
+
+mutual
+/-- structural equality of expression trees, written out (what `deriving BEq` computes; the
+    derived instance of a nested inductive is an opaque `partial def` about which nothing can
+    be proved — `E.eq_of_beq`, `E.beq_refl` are in Lemmas/ExprEq.lean) -/
+def E.beq : E → E → Bool
+  | .num p q, .num p' q' => p == p' && q == q'
+  | .cst n, .cst n' => n == n'
+  | .sym n, .sym n' => n == n'
+  | .sf n k, .sf n' k' => n == n' && k == k'
+  | .vf n k, .vf n' k' => n == n' && k == k'
+  | .idx b i, .idx b' i' => E.beq b b' && i == i'
+  | .add as, .add as' => E.beqList as as'
+  | .mul as, .mul as' => E.beqList as as'
+  | .pow b e, .pow b' e' => E.beq b b' && E.beq e e'
+  | .fn f a, .fn f' a' => f == f' && E.beq a a'
+  | .pd c a, .pd c' a' => c == c' && E.beq a a'
+  | .op1 o a, .op1 o' a' => o == o' && E.beq a a'
+  | .op2 o a b, .op2 o' a' b' => o == o' && E.beq a a' && E.beq b b'
+  | .mat r c es, .mat r' c' es' => r == r' && c == c' && E.beqList es es'
+  | .tup as, .tup as' => E.beqList as as'
+  | .normal k, .normal k' => k == k'
+  | .other t as, .other t' as' => t == t' && E.beqList as as'
+  | _, _ => false
+def E.beqList : List E → List E → Bool
+  | [], [] => true
+  | a :: as, b :: bs => E.beq a b && E.beqList as bs
+  | _, _ => false
+end
+
+instance : BEq E := ⟨E.beq⟩
 
 namespace E
 
